@@ -387,3 +387,64 @@ def sm6(P, C, floor=2):
              ("%d HDU move(s); no read follows a move whose status was reset without having been tested zero" % moves) if not bad else
              "%s at %s runs after the status of the move at %s was reset to 0 without a test: if the move failed, it reads the HDU that was current before"
              % (bad[0][1], f.loc(bad[0][0]), bad[0][2]))
+
+
+# --------------------------------------------------------------------------
+# SM-7: axis lengths come out of the file in FITS order and are reversed before they are indexed by dimension
+# --------------------------------------------------------------------------
+def sm7(P, C, floor=2):
+    C.rule("SM-7", "the axis lengths fits_get_img_size returns for the coefficient image are in FITS (reversed) order; both the reader and the size "
+           "model reverse them before any use indexed by dimension — the reader by copying the temporary back to front into naxes, "
+           "estimateMemory by std::reverse on the vector, placed before the first subscript of it", floor=floor)
+    for name in ("read_fits_core", "estimateMemory"):
+        f = [g for g in P.functions.values() if g.unit == "driver" and g.name == name and "splinetable<" in g.qname][0]
+        # the vector handed to fits_get_img_size with a count other than the literal 1
+        src = None
+        at = None
+        for i, cal in f.calls():
+            if cal and (f.call_macro(i) or cal["name"]) in ("fits_get_img_size", "ffgisz"):
+                a = f.args(i)
+                if f.nodes[f.strip(a[1])].get("cv") == 1:
+                    continue
+                for y in f.walk(a[2]):
+                    if f.k(y) == "DeclRefExpr" and "vector" in f.nodes[y]["decl"].get("type", ""):
+                        src, at = f.nodes[y]["decl"]["id"], i
+        if src is None:
+            raise core.AnalysisBroken("SM-7: the multi-axis fits_get_img_size call of %s was not found" % name)
+
+        def mentions(i):
+            return any(f.k(y) == "DeclRefExpr" and f.nodes[y]["decl"]["id"] == src for y in f.walk(i))
+        revs = [i for i, cal in f.calls() if cal and cal["name"] == "reverse" and len(f.args(i)) == 2 and mentions(f.args(i)[0]) and mentions(f.args(i)[1]) and
+                "begin" in f.render(f.args(i)[0]) and "end" in f.render(f.args(i)[1])]
+        rcopies = [i for i, cal in f.calls() if cal and cal["name"] == "copy" and len(f.args(i)) == 3 and mentions(f.args(i)[0]) and
+                   "rbegin" in f.render(f.args(i)[0]) and "rend" in f.render(f.args(i)[1]) and ts.root_member(f, f.args(i)[2]) and ts.root_member(f, f.args(i)[2])[0] == "naxes"]
+        # subscripts of the raw vector by a (dimension) variable
+        subs = [y for y in f.walk() if f.k(y) in ("ArraySubscriptExpr", "CXXOperatorCallExpr") and (f.k(y) == "ArraySubscriptExpr" or f.nodes[y].get("opcall") == "[]") and
+                mentions(f.nodes[y]["ch"][-2]) and f.k(f.strip(f.nodes[y]["ch"][-1])) == "DeclRefExpr"]
+        pos = f.node_positions()
+        dom = f.dominators()
+
+        def at_(i):
+            while i >= 0 and i not in pos:
+                i = f.parent[i]
+            return pos.get(i)
+
+        def dominated_by(r, nodes):
+            pr = at_(r)
+            out = []
+            for x in nodes:
+                px = at_(x)
+                if pr and px and not ((pr[0] == px[0] and pr[1] < px[1]) or (pr[0] != px[0] and pr[0] in dom.get(px[0], ()))):
+                    out.append(x)
+            return out
+        if name == "estimateMemory":
+            late = dominated_by(revs[0], subs) if revs else subs
+            ok = len(revs) == 1 and not late and f.nodes[revs[0]]["loc"] > f.nodes[at]["loc"]
+            det = "std::reverse on the axis vector after reading it, before all %d subscripts by dimension" % len(subs) if ok else \
+                ("the axis vector is subscripted by dimension at %s without having been reversed: the convolved dimension's length overwrites the "
+                 "mirror dimension's" % ", ".join(f.loc(x) for x in late[:3]) if not revs or late else "reversal misplaced")
+        else:
+            # the reader may look at the raw vector only for sign checks; what becomes naxes is the reversed copy
+            ok = len(rcopies) == 1 and not revs
+            det = "naxes = the temporary copied back to front (%d reversed copy)" % len(rcopies)
+        C.ob("SM-7", name, "axes-reversed", ok, f.loc(at), det)
